@@ -415,25 +415,27 @@ func soyQuote(st *xstyle, s string) string {
 
 // ---------- literals ----------
 
-func xNull() *xe         { return &xe{op: "null"} }
-func xBool(b bool) *xe   { return &xe{op: "bool", b: b} }
+func xNull() *xe          { return &xe{op: "null"} }
+func xBool(b bool) *xe    { return &xe{op: "bool", b: b} }
 func xIntLit(i int64) *xe { return &xe{op: "int", i: i, lit: strconv.FormatInt(i, 10)} }
-func xHex(i int64) *xe   { return &xe{op: "int", i: i, lit: "0x" + strings.ToUpper(strconv.FormatInt(i, 16))} }
+func xHex(i int64) *xe {
+	return &xe{op: "int", i: i, lit: "0x" + strings.ToUpper(strconv.FormatInt(i, 16))}
+}
 func xStr(st *xstyle, s string) *xe {
 	return &xe{op: "str", s: s, lit: soyQuote(st, s)}
 }
 func xRef(name string, accs ...xacc) *xe { return &xe{op: "ref", name: name, accs: accs} }
-func xBin(op string, a, c *xe) *xe      { return &xe{op: "bin", bop: op, kids: []*xe{a, c}} }
-func xCall(fn string, args ...*xe) *xe  { return &xe{op: "call", fn: fn, kids: args} }
-func xNeg(a *xe) *xe                    { return &xe{op: "neg", kids: []*xe{a}} }
-func xNot(a *xe) *xe                    { return &xe{op: "not", kids: []*xe{a}} }
-func xElvis(a, c *xe) *xe               { return &xe{op: "elvis", kids: []*xe{a, c}} }
-func xTern(c, a, d *xe) *xe             { return &xe{op: "tern", kids: []*xe{c, a, d}} }
-func xList(items ...*xe) *xe            { return &xe{op: "list", kids: items} }
+func xBin(op string, a, c *xe) *xe       { return &xe{op: "bin", bop: op, kids: []*xe{a, c}} }
+func xCall(fn string, args ...*xe) *xe   { return &xe{op: "call", fn: fn, kids: args} }
+func xNeg(a *xe) *xe                     { return &xe{op: "neg", kids: []*xe{a}} }
+func xNot(a *xe) *xe                     { return &xe{op: "not", kids: []*xe{a}} }
+func xElvis(a, c *xe) *xe                { return &xe{op: "elvis", kids: []*xe{a, c}} }
+func xTern(c, a, d *xe) *xe              { return &xe{op: "tern", kids: []*xe{c, a, d}} }
+func xList(items ...*xe) *xe             { return &xe{op: "list", kids: items} }
 func xMap(keys []string, vals []*xe) *xe { return &xe{op: "map", keys: keys, kids: vals} }
-func aKey(ns bool, k string) xacc       { return xacc{kind: 'k', ns: ns, key: k} }
-func aIdx(ns bool, i int64) xacc        { return xacc{kind: 'i', ns: ns, idx: i} }
-func aExpr(ns bool, e *xe) xacc         { return xacc{kind: 'x', ns: ns, e: e} }
+func aKey(ns bool, k string) xacc        { return xacc{kind: 'k', ns: ns, key: k} }
+func aIdx(ns bool, i int64) xacc         { return xacc{kind: 'i', ns: ns, idx: i} }
+func aExpr(ns bool, e *xe) xacc          { return xacc{kind: 'x', ns: ns, e: e} }
 
 // exact decimal expansion of a float64 that is a dyadic rational
 func decimalOf(f float64) string {
@@ -608,9 +610,9 @@ var xkNames = []string{"int", "float", "string", "bool", "list", "map", "null", 
 type xgen struct {
 	r       *hx.Rand
 	st      *xstyle
-	ill     int               // percent chance that a sub-expression is of a random kind instead
+	ill     int                   // percent chance that a sub-expression is of a random kind instead
 	globals map[string]data.Value // compile-time globals available
-	noRand  bool              // no randomInt (its value is not defined)
+	noRand  bool                  // no randomInt (its value is not defined)
 }
 
 func (g *xgen) pick(l ...string) string { return l[g.r.Intn(len(l))] }
@@ -967,7 +969,7 @@ func (g *xgen) functionMatrix() []*xe {
 				ints := []*xe{xIntLit(0), xIntLit(2), xIntLit(9), xIntLit(-4), xStr(g.st, "x"), xFloatLit(g.r, 1)}
 				for _, a := range ints {
 					for _, c := range ints {
-						for _, s := range []*xe{xIntLit(1), xIntLit(3), xFloatLit(g.r, 1), xNull()} { // a step <= 0 never terminates on the unrepaired tree (ledger I8, property C06)
+						for _, s := range []*xe{xIntLit(1), xIntLit(3), xIntLit(0), xIntLit(-1), xFloatLit(g.r, 1), xNull()} { // step <= 0: no value (repaired under C06: 1d02d41)
 							out = append(out, xCall(f.name, xClone(a), xClone(c), xClone(s)))
 						}
 					}
@@ -1062,3 +1064,55 @@ func (g *xgen) nestingMatrix() []*xe {
 }
 
 func validUTF8(s string) bool { return utf8.ValidString(s) }
+
+// freshMaybeEmptyList: the expression may evaluate to a freshly created empty list
+// (an empty list literal, range, keys): the statement does not say whether two such lists are identical.
+func (e *xe) freshMaybeEmptyList() bool {
+	switch e.op {
+	case "list":
+		return len(e.kids) == 0
+	case "call":
+		return e.fn == "range" || e.fn == "keys"
+	case "elvis":
+		return e.kids[0].freshMaybeEmptyList() || e.kids[1].freshMaybeEmptyList()
+	case "tern":
+		return e.kids[1].freshMaybeEmptyList() || e.kids[2].freshMaybeEmptyList()
+	}
+	return false
+}
+
+// comparesEmptyFresh: somewhere an == or != has a possibly empty fresh list on both sides
+func (e *xe) comparesEmptyFresh() bool {
+	if e.op == "bin" && (e.bop == "eq" || e.bop == "ne") && e.kids[0].freshMaybeEmptyList() && e.kids[1].freshMaybeEmptyList() {
+		return true
+	}
+	for _, a := range e.accs {
+		if a.kind == 'x' && a.e.comparesEmptyFresh() {
+			return true
+		}
+	}
+	for _, k := range e.kids {
+		if k.comparesEmptyFresh() {
+			return true
+		}
+	}
+	return false
+}
+
+// NaN (0.0/0.0), the infinities (1/0, -1/0) and -0.0 as operands
+func (g *xgen) specialFloats() []*xe {
+	mk := []func() *xe{
+		func() *xe { return xBin("div", xFloatLit(nil, 0), xFloatLit(nil, 0)) },
+		func() *xe { return xBin("div", xIntLit(1), xIntLit(0)) },
+		func() *xe { return xBin("div", xIntLit(-1), xIntLit(0)) },
+		func() *xe { return xFloatLit(nil, math.Copysign(0, -1)) },
+	}
+	var out []*xe
+	for _, x := range mk {
+		out = append(out, x(), xNot(x()), xBin("and", x(), xBool(true)), xBin("or", x(), xBool(false)),
+			xTern(x(), xStr(g.st, "y"), xStr(g.st, "n")), xBin("eq", x(), x()), xBin("ne", x(), xIntLit(0)), xBin("lt", x(), xIntLit(1)),
+			xBin("ge", x(), x()), xBin("add", xStr(g.st, "s"), x()), xNeg(x()), xElvis(x(), xIntLit(1)), xCall("isNonnull", x()),
+			xBin("eq", x(), xFloatLit(nil, 0)), xList(x()), xCall("min", x(), xFloatLit(nil, 0)), xCall("max", xFloatLit(nil, 0), x()))
+	}
+	return out
+}
